@@ -178,8 +178,9 @@ PLANS = {
         mc=[mc("MC_Twin", "MC_Twin.cfg"), mc("MC_Twin", "MC_Twin_cap.cfg"), mc("MC_Twin", "MC_Twin_deep.cfg", tier="thorough"),
             mc("MC_Parser", "MC_Parser_two.cfg", workers=8, tier="thorough"),
             mc("MC_Twin", "NC_Twin_fragno.cfg", expect="TwinInv")] + PARSER_MC[:1],
-        families=[fam("twin", F.fam_twin, twin_merge=E.tag_twin_merge, need_classes=["reject_form", "reject_checksum", "single", "reject_seq_no", "deliver"])],
-        custom=[dict(run=walk_std)],
+        families=[fam("twin", F.fam_twin, twin_merge=E.tag_twin_merge, need_classes=["reject_form", "reject_checksum", "single", "reject_seq_no", "deliver"],
+                      builds=("std", "none"))],
+        custom=[dict(run=walk_std), dict(run=walk_none)],
         rule="TwinInv (2-safety by self-composition) over all histories of the bounded model; twin streams A / A-minus-removable "
              "fed to two interleaved parser instances, observations of the common lines compared; every path of length <= D "
              "replayed (a hidden state change shows up in every continuation)"),
